@@ -78,7 +78,11 @@ def registry():
     return reg
 
 
-def script_consolidate(ex):
+def canary_consolidate(ex):
+    script_consolidate(ex, canary=True)
+
+
+def script_consolidate(ex, canary=False):
     I = Interp(ex, registry())
     I.ghost['ctx'] = lib.CtxStub()
     rw = I.fresh('rw_ctx', ('obj', CC.RWSC))
@@ -108,6 +112,13 @@ def script_consolidate(ex):
     ex.oblige('C02.T.cons.inputs_unmodified', ops.forall(
         [j, q], z3.Implies(inr, z3.Select(amt, x) == z3.Select(a0, x)),
         patterns=[z3.Select(ar, q)]), 'T')
+    if canary:
+        # "some entry holds one unit more than the sum" is false on every
+        # path (also when nothing is placed): must be refuted
+        ex.oblige('C02.canary.amounts', z3.Exists([p], z3.And(
+            p >= 0, p < out.len,
+            z3.Select(amt, op) == S(n, CC.arr_key(I, op)) + 1)), 'canary')
+        return
     ex.oblige('C02.T.cons.amounts_added_up', ops.forall(
         [p], z3.Implies(z3.And(p >= 0, p < out.len),
                         z3.Select(amt, op) == S(n, CC.arr_key(I, op))),
@@ -355,6 +366,7 @@ def build(tier, seed):
     chk.script('multi_group_rcs', script_multi_group,
                ['placement/objects/allocation_candidate.py:AllocationCandidates._get_by_requests'])
     claim_lemmas(chk)
+    chk.canary('canary.consolidate.amounts', canary_consolidate)
     chk.replayer('C02.', replay_c02)
     chk.fallback('B4.c02.claim_every_candidate', lambda: replay_c02(None),
                  '4 topologies x 8 queries (+ isolate / three-group / overlapping-class queries) x microversions: every returned allocation request is checked against the query arithmetic, PUT for a fresh consumer (must be 204) and removed again; every summary compared with the stored inventory, usage, traits and tree position',
